@@ -111,10 +111,15 @@ class RuleView:
         self.ctx = ck.ctx
         self.prop_id = ck.prop_id
         self.tier = ck.tier
+        self.extra = {}              # scratch: notes of the borrowed rule are not part of the borrowing property's evidence
 
     def clause(self, rule, text):
         if rule in self._map:
-            self._ck.clauses.setdefault(self._map[rule], text)
+            target = self._ck
+            if isinstance(target, RuleView):
+                target.clause(self._map[rule], text)
+            else:
+                target.clauses.setdefault(self._map[rule], text)
 
     def ok(self, rule, *a, **k):
         if rule in self._map:
